@@ -1,4 +1,5 @@
 import IcyVerif.Drv.Bgi
+import IcyVerif.Drv.BinFormats
 import IcyVerif.Drv.Codec
 import IcyVerif.Drv.ColorOpt
 import IcyVerif.Drv.Comp
@@ -22,6 +23,7 @@ open IcyVerif.Drv
 def dispatch (line : String) : String :=
   match line.trimAscii.toString.splitOn " " with
   | "bgi" :: rest => Bgi.handle rest
+  | "binformats" :: rest => BinFormats.handle rest
   | "codec" :: rest => Codec.handle rest
   | "coloropt" :: rest => ColorOpt.handle rest
   | "comp" :: rest => Comp.handle rest
